@@ -48,6 +48,13 @@ def obligations(tier: str) -> list[Ob]:
     )
     obs.append(
         harness_ob(
+            "dependencies_recorded_at_every_position", "C08_deps.py", tier, funcs=["dependants_are_removed"], timeout=400 if q else 1200, cpus=1, replay_func="vlib.props.C01:replay",
+            encoded=["openapi_python_client.parser.properties:build_schemas", "openapi_python_client.parser.properties.union:UnionProperty.build"],
+            bounds={"positions": 10, "failures": 3, "declaration orders": 6},
+        )
+    )
+    obs.append(
+        harness_ob(
             "scope_names_distinct", "C09_scopes.py", tier, funcs=["attr_conflicts_2__excl", "param_conflicts_2__excl"], timeout=240 if q else 900, cpus=2, replay_func="vlib.props.C01:replay",
             encoded=["openapi_python_client.parser.openapi:Endpoint._check_parameters_for_conflicts", "openapi_python_client.parser.properties.model_property:_process_properties"],
             stubs=["names from pools; the raw-fallback classes C09-F5/F6 are assumed away (recorded under C09)"],
